@@ -844,6 +844,55 @@ fn run_probe(tb: &Table, base: &St, probe: &Probe) -> Result<ProbeOut, V> {
         }
     }
     judge_accessors(tb, &m, &filter, &mut engine.state, &mut out)?;
+
+    // ---- dead-link round: the same command on the same state while ONE exchange's execution link is gone.
+    // What cannot be delivered is reported as failed; everything on the healthy exchanges is requested exactly as
+    // before ("exactly the tracked orders of the matching instruments" does not shrink because a sibling venue
+    // is unreachable).
+    if tb.n_ex >= 2 {
+        let dead_ex = (0..tb.n_ex).map(|k| (n_match + k) % tb.n_ex).find(|e| Some(*e) != tb.data_only_ex).unwrap_or(0);
+        let links = new_links(tb);
+        links[dead_ex].set_mode(TxMode::Closed);
+        let mut engine = engine_over(tb, base.clone(), &links);
+        let command = if probe.close { Command::ClosePositions(filter.clone()) } else { Command::CancelOrders(filter.clone()) };
+        let audit = catch(|| engine.process(EngineEvent::Command(command))).map_err(|msg| ("panic_in_engine_process", format!("dead-link round: {msg}")))?;
+        let dl = drain(&links);
+        out.checks += 2;
+        let what = if probe.close { "ClosePositions" } else { "CancelOrders" };
+        let (mut want_healthy, mut want_dead): (Vec<(usize, String)>, usize) = (vec![], 0);
+        for i in (0..tb.n).filter(|i| m[*i]) {
+            let st = istate(base, i);
+            let items: Vec<(usize, String)> = if probe.close {
+                if closable(st) { vec![(i, String::new())] } else { vec![] }
+            } else {
+                st.orders.0.values().filter(|o| !matches!(o.state, ActiveOrderState::CancelInFlight(_))).map(|o| (i, o.key.cid.0.to_string())).collect()
+            };
+            if tb.ex_of[i] == dead_ex {
+                want_dead += items.len();
+            } else {
+                want_healthy.extend(items);
+            }
+        }
+        want_healthy.sort();
+        let mut got: Vec<(usize, String)> = if probe.close { dl.opens.iter().map(|o| (o.instr, String::new())).collect() } else { dl.cancels.iter().map(|c| (c.instr, c.cid.clone())).collect() };
+        got.sort();
+        if got != want_healthy {
+            return Err(("requests_for_healthy_exchanges_withheld_or_changed_by_a_dead_link", format!("{what} while the link of exchange {dead_ex} is gone: delivered (instrument, id) {got:?}, expected on the healthy exchanges {want_healthy:?}")));
+        }
+        if dl.cancels.iter().any(|c| c.link != tb.ex_of[c.instr]) || dl.opens.iter().any(|o| o.link != tb.ex_of[o.instr]) {
+            return Err(("request_delivered_to_wrong_link", format!("{what} while the link of exchange {dead_ex} is gone")));
+        }
+        if want_dead > 0 {
+            out.cells.insert(if probe.close { "dead_link_round:close" } else { "dead_link_round:cancel" });
+            let cl = claimed(&audit).map_err(|(s2, dd)| (s2, format!("dead-link round: {dd}")))?;
+            if cl.errors == 0 {
+                return Err(("undeliverable_request_not_reported_failed", format!("{what}: {want_dead} requests for exchange {dead_ex} (link gone) could not be delivered, the audit reports no error")));
+            }
+            if want_healthy.iter().any(|(i, _)| tb.ex_of[*i] > dead_ex) {
+                out.cells.insert("dead_link_round:healthy_exchange_after_the_dead_one");
+            }
+        }
+    }
     Ok(out)
 }
 
@@ -1314,6 +1363,9 @@ fn main() {
             "actionable_outside_filter_left_untouched:close",
             "repeated_cancel_sends_nothing",
             "repeated_close_judged_by_same_rule",
+            "dead_link_round:cancel",
+            "dead_link_round:close",
+            "dead_link_round:healthy_exchange_after_the_dead_one",
         ] {
             report.require(c);
         }
